@@ -42,7 +42,7 @@ type c13Result struct {
 
 // c13Run runs one controller with (P, L, D); closeAfter < 0: observe `want`
 // lists then close; otherwise close after that duration.
-func c13Run(P, L, D time.Duration, want int, closeAfter time.Duration) c13Result {
+func c13Run(P, L, D time.Duration, want int, closeAfter time.Duration) (res c13Result) {
 	a := newFakeAPI()
 	a.put("a", "p", nil)
 	// The consumption delay: just before list k returns, a trigger object "t<k>" is published on the
@@ -89,7 +89,6 @@ func c13Run(P, L, D time.Duration, want int, closeAfter time.Duration) c13Result
 	if err != nil {
 		return c13Result{violation: "create: " + err.Error()}
 	}
-	res := c13Result{}
 	countLists := func() int {
 		a.mu.Lock()
 		defer a.mu.Unlock()
@@ -140,6 +139,27 @@ func c13Run(P, L, D time.Duration, want int, closeAfter time.Duration) c13Result
 	calls := append([]*listCall(nil), a.listCalls...)
 	a.mu.Unlock()
 	res.lists = len(calls)
+	timeline := func() string {
+		if len(calls) == 0 {
+			return ""
+		}
+		t0 := calls[0].start
+		var b strings.Builder
+		for _, c := range calls {
+			fmt.Fprintf(&b, " #%d[%v..%v conc=%d cancelled=%v]", c.k, c.start.Sub(t0), c.end.Sub(t0), c.concurrent, c.cancelled)
+		}
+		smu.Lock()
+		for k, r := range sleeps {
+			fmt.Fprintf(&b, " sleep(t%d)[%v..%v]", k, r.start.Sub(t0), r.end.Sub(t0))
+		}
+		smu.Unlock()
+		return b.String()
+	}
+	defer func() {
+		if res.violation != "" {
+			res.violation += "\n  call record (offsets from the first List call):" + timeline()
+		}
+	}()
 	for i, c := range calls {
 		if c.concurrent > 1 {
 			res.violation = fmt.Sprintf("period %v, latency %v, delay %v: List call #%d started while another List call was still in flight", P, L, D, c.k)
@@ -203,6 +223,12 @@ func TestC13_Grid(t *testing.T) {
 			defer wg.Done()
 			sem <- struct{}{}
 			defer func() { <-sem }()
+			mu.Lock()
+			stop := firstViolation != ""
+			mu.Unlock()
+			if stop {
+				return // one violation is enough: do not spend a wedge bound on every remaining configuration
+			}
 			r := c13Run(g.P, g.L, g.D, 6, -1)
 			mu.Lock()
 			defer mu.Unlock()
@@ -248,6 +274,17 @@ func TestC13_Random(t *testing.T) {
 		if rapid.Bool().Draw(t, "delay") {
 			D = time.Duration(float64(P) * float64(rapid.IntRange(10, 250).Draw(t, "delayPct")) / 100)
 		}
+		if rapid.IntRange(0, 2).Draw(t, "nearPeriod") == 0 {
+			// the result is consumed just about when the refresh timer expires: Reset() then
+			// races with the expiry (the window of the stale-tick defect repaired in d4e0d22)
+			total := time.Duration(float64(P) * float64(rapid.IntRange(80, 118).Draw(t, "totalPct")) / 100)
+			total -= 350 * time.Microsecond // the harness's own hand-over pause before a list returns
+			if total < 0 {
+				total = 0
+			}
+			L = time.Duration(float64(total) * float64(rapid.IntRange(0, 100).Draw(t, "split")) / 100)
+			D = total - L
+		}
 		closeAfter := time.Duration(-1)
 		want := rapid.IntRange(3, 6).Draw(t, "lists")
 		if rapid.Bool().Draw(t, "closeAtInstant") {
@@ -265,5 +302,86 @@ func TestC13_Random(t *testing.T) {
 		statCase("C13", hashString(id), float64(L+D) > 0.9*float64(P), func() interface{} {
 			return map[string]interface{}{"mode": "random", "period": P.String(), "list_latency": L.String(), "consumption_delay": D.String(), "close_after": closeAfter.String(), "lists_observed": r.lists, "timer_mode": timerMode()}
 		}, "random", fmt.Sprintf("random_close_instant=%v", closeAfter >= 0), "timers_"+timerMode())
+	})
+}
+
+// TestC13_CloseDuringSlowList: "it still shuts down promptly": a list that
+// would take seconds is in flight when Close() is called; the client honours
+// its context, so Close() must return long before the list's own latency
+// has elapsed, and the fake must have seen the call cancelled.
+func TestC13_CloseDuringSlowList(t *testing.T) {
+	rapid.Check(t, func(t *rapid.T) {
+		P := time.Duration(rapid.IntRange(2000, 20000).Draw(t, "periodUs")) * time.Microsecond
+		slowK := rapid.IntRange(1, 3).Draw(t, "slowList")
+		slow := time.Duration(rapid.IntRange(2500, 4000).Draw(t, "slowMs")) * time.Millisecond
+		after := time.Duration(rapid.IntRange(0, 30000).Draw(t, "closeAfterStartUs")) * time.Microsecond
+		how := rapid.SampledFrom([]string{"close", "cancel"}).Draw(t, "how")
+		a := newFakeAPI()
+		a.put("a", "p", nil)
+		a.listLatency = func(k int) time.Duration {
+			if k == slowK {
+				return slow
+			}
+			return 0
+		}
+		ctx, cancel := context.WithCancel(context.Background())
+		defer cancel()
+		b := kcache.NewBuilder().Context(ctx).Log(newPlog(false, 1)).Client(a)
+		b.Lister().RefreshPeriod(P)
+		root, err := b.Create()
+		if err != nil {
+			t.Fatalf("create: %v", err)
+		}
+		defer func() { cancel(); go root.Close() }()
+		// wait until the slow list is in flight
+		deadline := time.Now().Add(wedgeBoundNow())
+		for {
+			a.mu.Lock()
+			inflight := len(a.listCalls) >= slowK && !a.listCalls[slowK-1].returned
+			a.mu.Unlock()
+			if inflight {
+				break
+			}
+			if time.Now().After(deadline) {
+				t.Fatalf("C13 violation: WEDGE: list #%d was never issued (period %v)", slowK, P)
+			}
+			time.Sleep(P / 8)
+		}
+		time.Sleep(after)
+		t0 := time.Now()
+		done := make(chan struct{})
+		go func() {
+			if how == "close" {
+				root.Close()
+			} else {
+				cancel()
+				<-root.Done()
+			}
+			close(done)
+		}()
+		// the list would run for >= 2.4 s more; a second is three orders of magnitude above a normal shutdown
+		select {
+		case <-done:
+		case <-time.After(time.Second):
+			a.mu.Lock()
+			c := a.listCalls[slowK-1]
+			a.mu.Unlock()
+			t.Fatalf("C13 violation: %s while list #%d was in flight (latency %v, period %v): the controller had not shut down after 1s; the in-flight List call was cancelled=%v returned=%v", how, slowK, slow, P, c.cancelled, c.returned)
+		}
+		took := time.Since(t0)
+		a.mu.Lock()
+		c := a.listCalls[slowK-1]
+		a.mu.Unlock()
+		if !c.returned || !c.cancelled {
+			t.Fatalf("C13 violation: the controller shut down but the in-flight List call #%d was not cancelled (returned=%v cancelled=%v)", slowK, c.returned, c.cancelled)
+		}
+		cancel()
+		if n, dump := waitNoLibGoroutines(wedgeBoundNow()); n != 0 {
+			t.Fatalf("C13 violation: %d library goroutines left after shutdown during a slow list:\n%s", n, dump)
+		}
+		id := fmt.Sprintf("slowlist P=%v k=%d after=%v %s", P, slowK, after, how)
+		statCase("C13", hashString(id), true, func() interface{} {
+			return map[string]interface{}{"mode": "shutdown during a slow list", "period": P.String(), "slow_list": slowK, "list_latency": slow.String(), "shutdown": how, "shutdown_took": took.String()}
+		}, "close_during_slow_list", "timers_"+timerMode())
 	})
 }
